@@ -11,9 +11,11 @@ package harness
 
 import (
 	"bytes"
+	"flag"
 	"fmt"
 	"math"
 	"strconv"
+	"strings"
 	"testing"
 
 	"pgregory.net/rapid"
@@ -207,10 +209,12 @@ func expMask(f *numKind) uint64 {
 	return 0x7ff0000000000000
 }
 
+var flagExh32 = flag.String("verif.exhaustive32", "", "comma-separated 32-bit types walked exhaustively also in the quick tier")
+
 func TestC07(t *testing.T) {
 	stats.Property = "C07"
 	replayRegressions(t, "C07")
-	stats.Rule = "exhaustive walks in value order of every value of the 8/16-bit types (quick) and of uint32/int32/float32 (thorough, sharded), consecutive-value sweeps of 2^16 (quick) / 2^20 (thorough) values around every boundary of the 32/64-bit types, all NaN patterns (sampled for float64), rapid-generated pairs biased to boundaries/neighbours/sign flips, and rapid-generated 2..4-field tuples; " +
+	stats.Rule = "exhaustive walks in value order of every value of the 8/16-bit types and of float32 (quick, float32 sharded over 16 processes) and of uint32/int32/float32 (thorough, sharded), consecutive-value sweeps of 2^16 (quick) / 2^20 (thorough) values around every boundary of the 32/64-bit types, all NaN patterns (sampled for float64), rapid-generated pairs biased to boundaries/neighbours/sign flips, and rapid-generated 2..4-field tuples; " +
 		"each adjacent pair / generated pair is checked for fixed length, bit-exact round trip and sign(bytes.Compare(enc x, enc y)) == sign(native compare x,y); non-trivial = a pair with x != y (every adjacent pair of a walk is one); distinct by value pair"
 	thorough := *flagTier == "thorough"
 	shard, shards := uint64(*flagShard), uint64(max(1, *flagShards))
@@ -235,7 +239,7 @@ func TestC07(t *testing.T) {
 			report(err)
 			stats.AddBulk(n, n-1, "exhaustive_"+name)
 			stats.Exhaustive[name] = true
-		case f.width == 32 && thorough:
+		case f.width == 32 && (thorough || strings.Contains(","+*flagExh32+",", ","+name+",")):
 			span := (hi - lo + 1 + shards - 1) / shards
 			a := lo + shard*span
 			b := min(hi, a+span) // overlap by one so that every adjacent pair is covered
@@ -278,7 +282,7 @@ func TestC07(t *testing.T) {
 	}
 	for _, name := range allNumKindNames {
 		f := numKinds[name]
-		if f.width < 32 || (f.width == 32 && thorough) {
+		if f.width < 32 || (f.width == 32 && (thorough || strings.Contains(","+*flagExh32+",", ","+name+","))) {
 			continue
 		}
 		lo, hi := rankRange(f)
@@ -360,6 +364,9 @@ func TestC07(t *testing.T) {
 		// tuples: the concatenation of field encodings orders like the tuple
 		k := drawCompoundKind(rt).(*compoundKind)
 		k.hasStr = false
+		for len(k.fields) < 2 { // tuples of numeric fields only, at least two of them
+			k.fields = append(k.fields, numKinds[pick(rt, allNumKindNames[:4], "extrafield")])
+		}
 		mk := func(label string) []byte {
 			var raw []byte
 			for _, fl := range k.fields {
